@@ -19,10 +19,12 @@ RULE = ('Hypothesis rule-based state machines drive (1) SEQUENCE OF / SET OF obj
         'abstract content and the DER encoding (or its refusal while the value is incomplete) equal those of the model; readers '
         'change nothing; ill-formed operations raise a lookup / library error and change nothing; a CHOICE never holds two '
         'alternatives. (4) Enumeration: every arithmetic / conversion / comparison operator of every simple type applied to a '
-        'valueless schema object raises PyAsn1Error. Non-trivial = a mutator after clear / reset / clone, or a reader between two '
+        'valueless schema object raises PyAsn1Error. (5) SEQUENCE / SET without declared components, filled by position and value-'
+        'cloned, against a dict over field-0, field-1, ... (len, keys, values, items, iteration, in, reads, DER). Non-trivial = a mutator after clear / reset / clone, or a reader between two '
         'mutators; distinct = distinct histories.')
 ASSUMPTIONS = ['model decisions are those of DESIGN.md Appendix A (documented auto-instantiating accessors are modelled as such)']
-SHARDS = {'quick': {'of': (6, 120), 'record': (5, 120), 'choice': (4, 120)}, 'thorough': {'of': (6, 2500), 'record': (5, 2500), 'choice': (4, 2500)}}
+SHARDS = {'quick': {'of': (6, 120), 'record': (5, 120), 'choice': (4, 120), 'dynrec': (1, 600)},
+          'thorough': {'of': (6, 2500), 'record': (5, 2500), 'choice': (4, 2500), 'dynrec': (1, 20000)}}
 BUDGET = {'quick': 100, 'thorough': 1500}
 MIN_NONTRIVIAL = {'quick': 300, 'thorough': 3000}
 TECHNIQUE = 'model-based stateful testing (Hypothesis RuleBasedStateMachine) against list / dict models + enumeration of scalar operators'
@@ -910,7 +912,75 @@ def scalar_sweep(col):
     col.exhaustive = True
 
 
+# =================================================================== (5) SEQUENCE / SET without declared components
+
+def run_dynrec(case):
+    """A record without componentType is filled by position and names its members field-0, field-1, ...: after every step it
+    is a dict over those names in position order (len, keys, values, items, iteration, in, by-name and by-position reads), its
+    DER is the SEQUENCE / SET of the members, and a value clone is indistinguishable from it. case: {'dynrec': 'SEQUENCE'|'SET',
+    'ops': [[name, ...]]} -> failures"""
+    cls = univ.Sequence if case['dynrec'] == 'SEQUENCE' else univ.Set
+    o = cls()
+    m = []                      # model: list of ints / bytes
+    hist = {'dynrec': case['dynrec'], 'ops': []}
+
+    def mk(x):
+        return univ.OctetString(bytes(x)) if isinstance(x, (bytes, list)) else univ.Integer(x)
+
+    def plain(x):
+        return bytes(x.asOctets()) if isinstance(x, univ.OctetString) else int(x)
+
+    def ref(model):
+        body = [x690.der(ir.mk('OCTETSTRING' if isinstance(x, bytes) else 'INTEGER'), x) for x in model]
+        if case['dynrec'] == 'SET':
+            body = sorted(body, key=lambda e: e[0])          # two universal tags only: by tag
+        body = b''.join(body)
+        return x690.ident('U', True, 16 if case['dynrec'] == 'SEQUENCE' else 17) + x690.length(len(body)) + body
+
+    for op in case['ops']:
+        hist['ops'].append(op)
+        try:
+            if op[0] == 'set':
+                i = min(op[1], len(m))
+                v = bytes(op[2]) if isinstance(op[2], list) else op[2]
+                if case['dynrec'] == 'SET' and i == len(m) and any(type(x) is type(v) for x in m):
+                    continue        # a SET holds one member per tag
+                if case['dynrec'] == 'SET' and i < len(m) and type(m[i]) is not type(v):
+                    continue
+                o.setComponentByPosition(i, mk(v))
+                if i == len(m):
+                    m.append(v)
+                else:
+                    m[i] = v
+            elif op[0] == 'clone':
+                o = o.clone(cloneValueFlag=True)
+            elif op[0] == 'clear':
+                o.clear()
+                m = []
+        except Exception as ex:
+            return [fail('dynrec', 'raises', '%s raised %s' % (op, harness.exc_sig(ex)), hist, harness.exc_sig(ex))]
+        if not m:
+            continue
+        names = ['field-%d' % i for i in range(len(m))]
+        try:
+            obs = {'len': len(o), 'keys': list(o.keys()), 'iter': list(iter(o)), 'values': [plain(x) for x in o.values()],
+                   'items': [(k, plain(x)) for k, x in o.items()], 'in': all(n in o for n in names) and 'field-%d' % len(m) not in o,
+                   'byname': [plain(o[n]) for n in names], 'bypos': [plain(o[i]) for i in range(len(m))]}
+        except Exception as ex:
+            return [fail('dynrec', 'read-raises', 'reading raised %s after %s' % (harness.exc_sig(ex), op), hist, harness.exc_sig(ex))]
+        want = {'len': len(m), 'keys': names, 'iter': names, 'values': m, 'items': list(zip(names, m)), 'in': True, 'byname': m, 'bypos': m}
+        for k in want:
+            if obs[k] != want[k]:
+                return [fail('dynrec', 'read-' + k, '%s is %r, model %r after %s' % (k, obs[k], want[k], op), hist)]
+        e = lib.encode('DER', o)
+        if not e.ok or e.value != ref(m):
+            return [fail('dynrec', 'encoding', 'DER %s, model %s after %s' % (e.value.hex()[:60] if e.ok else e.brief(), ref(m).hex()[:60], op), hist)]
+    return []
+
+
 def replay(case):
+    if 'dynrec' in case:
+        return run_dynrec(case)
     if 'scalar' in case:
         c = harness.Collector()
         scalar_sweep(c)
@@ -926,6 +996,21 @@ RAW_CASES = True
 def run_shard(desc, seed, tier, col):
     if desc['mode'] == 'scalars':
         return scalar_sweep(col)
+    if desc['mode'] == 'dynrec':
+        from hypothesis import strategies as st
+        vals = st.one_of(st.sampled_from([0, 1, -1, 127, 128, 300]), st.lists(st.integers(0, 255), max_size=3))
+        op = st.one_of(st.tuples(st.just('set'), st.integers(0, 4), vals), st.tuples(st.just('set'), st.integers(0, 4), vals),
+                       st.tuples(st.just('clone')), st.tuples(st.just('clear')))
+        strat = st.tuples(st.sampled_from(['SEQUENCE', 'SEQUENCE', 'SET']), st.lists(op, min_size=1, max_size=10))
+
+        def body(x):
+            case = {'dynrec': x[0], 'ops': [list(o) for o in x[1]]}
+            names = [o[0] for o in case['ops']]
+            col.case(case, 'clone' in names and 'set' in names[:names.index('clone')], ['dynrec:' + x[0]] + (['clone'] if 'clone' in names else []),
+                     sample={'container': x[0] + ' without componentType', 'ops': case['ops'][:8]})
+            for f in run_dynrec(case):
+                col.fail(f['sub'], f['kind'], f['msg'], f['case'], sig=f['sig'])
+        return harness.run_given(strat, body, seed, desc['examples'], col)
     import hypothesis
     from hypothesis import strategies as st
     from hypothesis.stateful import RuleBasedStateMachine, rule, initialize, run_state_machine_as_test
